@@ -355,6 +355,23 @@ def check_collate(ctx: Ctx, c: Dict[str, Any]) -> None:
                 ctx.violation(dict(op="collate_samples", init=c["t"], what="mixed_axes", pos=pos),
                               f"collate_samples of {c['t']} samples with different axes ({[m['img'].axes().value for m in mixed]}) returned one {type(out).__name__} labelled {out.axes().value}", c)
                 break
+    # the same for torch functions of SEVERAL flow-field operands: a different representation in ANY operand (not only the second) is refused
+    if c["t"] == "FlowFields" and len(c["parts"]) >= 2:
+        others = [a for a in ("world", "grid", "cube", "cube_corners") if a != c["axes"]]
+        x1 = make_value(init, c["parts"][0])
+        x2 = make_value(init, c["parts"][1])
+        for pos in (2, 1, 0):
+            ops_ = [x1, x2, x1]
+            ops_[pos] = make_value(dict(init, axes=others[pos % len(others)]), c["parts"][0])
+            for fname, fn in (("cat", lambda o_: torch.cat(o_)), ("cat[tuple]", lambda o_: torch.cat(tuple(o_), dim=0)), ("stack", lambda o_: torch.stack(o_))):
+                try:
+                    out = fn(ops_)
+                except Exception:
+                    continue
+                if hasattr(out, "axes") and hasattr(out, "grids"):
+                    ctx.violation(dict(op="torch." + fname, init=c["t"], what="mixed_axes", pos=pos),
+                                  f"torch.{fname} of three FlowFields whose operand {pos} uses {ops_[pos].axes().value} axes (the others {c['axes']}) returned one {type(out).__name__} labelled {out.axes().value}", c)
+                    break
     ctx.count(key=("collate", json.dumps(c, sort_keys=True)))
 
 
